@@ -111,6 +111,52 @@ def serializer_obligations(ctx, facts, rule=None, scope="all"):
         # no other mutation of the Vec between sort and loop
         others = [e for e in bs["effects"] if e["target"] == vecvar and e["bb"] not in (srt["bb"],) and not e["path"].endswith("deref_mut")]
         ctx.ob(R("SORT-TAINT"), "serialiser: the Vec is not reordered after the sort", not others, fn=key, site=site, detail=str([e["path"] for e in others]))
+    elif len(iters) == 1 and not sorts and len(loops) == 1:
+        # no sort: the order may come from an ordered map the entries are collected into.  BTreeMap iterates in the
+        # Ord order of its keys (std doc: "iterators ... produce their items in order by key"), which for the text key types
+        # is the comparator the sort spelling uses (a.0.cmp(&b.0)); a key can occur once in either, coming from a HashMap.
+        ibb = iters[0][0]
+        h, (nb, it, npath) = next(iter(loops.items()))
+        src = it
+        mapvar = None
+        for _ in range(8):
+            if src[0] == "var" and len(src) > 2:
+                mapvar = src[1]
+                src = src[2]
+            elif src[0] == "call" and src[1] == "std::iter::Iterator::enumerate":
+                src = src[2][0]
+                mapvar = None
+            elif src[0] == "call" and src[1] == "std::iter::IntoIterator::into_iter":
+                src = src[2][0]
+                mapvar = None
+            else:
+                break
+        okm = src[0] == "call" and ("std::collections::BTreeMap<" in src[1]) and src[1].split("::")[-1] in ("into_iter", "iter") and len(src[2]) == 1
+        coll = strip(src[2][0]) if okm else None
+        if okm and coll[0] == "var" and len(coll) > 2:
+            mapvar = coll[1]
+            coll = coll[2]
+        okc = okm and coll[0] == "call" and coll[1] == "std::iter::Iterator::collect" and coll[2][0][0] == "call" and coll[2][0][3] == ibb
+        ctx.ob(R("SORT-TAINT"), "serialiser: the iteration is collected into the ordered map that the emitting loop iterates", bool(okc), fn=key, site=body.site(nb), detail=nshow(src)[:160])
+        if not okc:
+            return
+        cty = body.locals[body.term(coll[3])["dest"]["l"]]["ty"]
+        kty = cty[len("std::collections::BTreeMap<"):] if cty.startswith("std::collections::BTreeMap<") else "?"
+        depth = 0
+        for i_, ch in enumerate(kty):
+            if ch in "<(":
+                depth += 1
+            elif ch in ">)":
+                depth -= 1
+            elif ch == "," and depth == 0:
+                kty = kty[:i_]
+                break
+        TEXT_KEYS = ("std::string::String", "smartstring::SmartString<", "&str", "&'a str", "std::borrow::Cow<'_, str>", "std::borrow::Cow<'a, str>")
+        ctx.ob(R("SORT-TAINT"), "serialiser: the ordered map is keyed by the algorithm name (text order, total)", kty.startswith(TEXT_KEYS), fn=key, site=site, detail="%s keyed by %s" % (cty[:60], kty))
+        others = [e for e in bs["effects"] if mapvar is not None and e["target"] == ("var", mapvar) and not e["path"].endswith("deref_mut")]
+        ctx.ob(R("SORT-TAINT"), "serialiser: the ordered map is only read before the loop", not others, fn=key, site=site, detail=str([e["path"] for e in others]))
+        ctx.ob(R("SORT-TAINT"), "serialiser: the emitting loop iterates the ordered map", True, fn=key, site=body.site(nb), detail=nshow(src)[:80], nontrivial=False)
+        ctx.ob(R("SORT-TAINT"), "serialiser: the collection dominates the emitting loop", body.dominates(coll[3], h), fn=key, site=site, detail="bb%d -> loop bb%d" % (coll[3], h))
     else:
         ctx.ob(R("SORT-TAINT"), "serialiser: one sort and one emitting loop", False, fn=key, site=site, detail="iters=%d sorts=%d loops=%d" % (len(iters), len(sorts), len(loops)))
         return
@@ -151,6 +197,11 @@ def serializer_obligations(ctx, facts, rule=None, scope="all"):
             return ("str", nshow(v)[:80])
         if p.endswith("::extend"):
             hx = strip_conv(a[1])
+            if hx[0] == "call" and hx[1] == "std::iter::Iterator::map" and len(hx[2]) == 2:
+                src_ = hx[2][0]
+                while src_[0] == "call" and src_[1].endswith("::into_iter") and len(src_[2]) == 1:
+                    src_ = src_[2][0]   # `for x in it` reads `IntoIterator::into_iter(it)`, the identity on iterators
+                hx = (hx[0], hx[1], (src_, hx[2][1])) + tuple(hx[3:])
             ok = hx[0] == "call" and hx[1] == "std::iter::Iterator::map" and hx[2][0][0] == "call" and hx[2][0][1].endswith("::chars") and ".1" in nshow(hx[2][0][2][0]) and hx[2][1][0] == "closure"
             if ok:
                 ct = norm(facts.body(hx[2][1][1]).resolve_local(0))
